@@ -27,17 +27,20 @@ Corollary regular_index_reindex_values (k : ikind) (a s : Z) (n : nat) (cast : n
   /\ Forall2 (fun x y : string * series cell =>
                 fst y = fst x /\ s_dtype (snd y) = s_dtype (snd x)
                 /\ exists c, fill_cell cast (List.length (span_labels new_span)) (s_dtype (snd x)) (fill_for fills fv (fst x)) = Ret c
-                          /\ s_data (snd y) = map (fun p => match pos p (reg_labels k a s n) with
-                                                            | Some q => nth q (s_data (snd x)) c
-                                                            | None => c
-                                                            end) (span_labels new_span))
+                          /\ (s_dtype (snd x) <> DObj ->
+                              s_data (snd y) = map (fun p => match pos p (reg_labels k a s n) with
+                                                             | Some q => nth q (s_data (snd x)) c
+                                                             | None => c
+                                                             end) (span_labels new_span)))
              (c_vars st) (c_vars st').
 Proof.
   intros Hs Hsp Hwf H.
   assert (Hok : old_span_ok (fun _ => reg_get_loc k a s n) (fun _ => reg_contains k a s n) (c_span st) (span_labels new_span))
     by (rewrite Hsp; apply regular_index_old_span_ok; exact Hs).
   destruct (reindex_values _ _ cast st st' new_span new_id fv strict fills fresh Hwf Hok H) as [H1 [_ [_ [_ H5]]]].
-  split; [exact H1|]. rewrite Hsp in H5. exact H5.
+  split; [exact H1|]. rewrite Hsp in H5.
+  clear - H5. induction H5 as [|x y l l' [Ha [Hb [c [Hc [_ Hex]]]]] HF IH]; constructor; [|exact IH].
+  split; [exact Ha|]. split; [exact Hb|]. exists c. split; [exact Hc | exact Hex].
 Qed.
 
 (* BaseLinker.reindex: not implemented, whatever the arguments *)
@@ -91,11 +94,13 @@ Proof.
   destruct (Hnames name Hin) as [Hmf [Hs [Hi [so [Hso [Hdt Hcf]]]]]].
   destruct (Forall2_lookup (fun a b => s_dtype (snd b) = s_dtype (snd a)
               /\ exists c, fill_cell cast (List.length (span_labels new_span)) (s_dtype (snd a)) (model_fill [] PNone (fst a)) = Ret c
-                        /\ s_data (snd b) = reindexed_data (span_labels (c_span st)) (s_data (snd a)) c (span_labels new_span))
-            (c_vars st) (c_vars r) name so) as [sn [Hsn [Hd [c [Hc Hdata]]]]].
+                        /\ map erase (s_data (snd b)) = map erase (reindexed_data (span_labels (c_span st)) (s_data (snd a)) c (span_labels new_span))
+                        /\ (s_dtype (snd a) <> DObj -> s_data (snd b) = reindexed_data (span_labels (c_span st)) (s_data (snd a)) c (span_labels new_span)))
+            (c_vars st) (c_vars r) name so) as [sn [Hsn [Hd [c [Hc [_ Hdata0]]]]]].
   - clear - HF. induction HF as [|a b l l' [Ha [Hb Hc]] HF IH]; constructor; [|exact IH]. split; [exact Ha|]. split; [exact Hb | exact Hc].
   - exact Hso.
   - simpl in *. exists so, sn. split; [exact Hso|]. split; [exact Hsn|].
+    assert (Hdata : s_data sn = reindexed_data (span_labels (c_span st)) (s_data so) c (span_labels new_span)) by (apply Hdata0; rewrite Hdt; discriminate).
     assert (Ec : c = CF FNan).
     { unfold model_fill in Hc. apply String.eqb_neq in Hs. apply String.eqb_neq in Hi. rewrite Hs, Hi in Hc.
       rewrite Hdt in Hc. unfold fill_for in Hc. simpl in Hc. rewrite Hcast in Hc. inversion Hc. reflexivity. }
